@@ -321,3 +321,169 @@ def check_min_group_law():
         if o.status == 'inconclusive' and 'no cofactor certificate' in o.detail:
             o.status = 'violated'; o.detail = 'not a consequence of the representation invariant (no certificate; canonical goal nonzero): ' + o.detail
     return obs
+
+# ---------------------------------------------------------------------------------------------- ladders over the free cyclic group
+class LP:
+    """multiple of a fixed point P in the free cyclic group Z:  (const + sum coeff[a] * [atom a] + extra) * P; atoms are z3 Bool
+    conditions, `extra` is an arbitrary z3 Int term used only when a merge is not expressible linearly"""
+    __slots__ = ('c', 'd', 'atoms', 'extra')
+    def __init__(s, c=0, d=None, atoms=None, extra=None): s.c = c; s.d = d or {}; s.atoms = atoms or {}; s.extra = extra
+    def __deepcopy__(s, memo): return s
+    def add(s, o):
+        d = dict(s.d)
+        for k, v in o.d.items():
+            d[k] = d.get(k, 0) + v
+            if d[k] == 0: del d[k]
+        at = dict(s.atoms); at.update(o.atoms)
+        ex = s.extra if o.extra is None else (o.extra if s.extra is None else s.extra + o.extra)
+        return LP(s.c + o.c, d, at, ex)
+    def neg(s): return LP(-s.c, {k: -v for k, v in s.d.items()}, s.atoms, None if s.extra is None else -s.extra)
+    def term(s):
+        t = z3.IntVal(s.c)
+        if s.d: t = t + z3.Sum([z3.If(s.atoms[k], z3.IntVal(v), z3.IntVal(0)) for k, v in s.d.items()])
+        if s.extra is not None: t = t + s.extra
+        return t
+    def mir_merge(s, cond, a, b):
+        """If(cond, a, b) = b + [cond] * (a - b): linear when a - b does not depend on scalar bits, otherwise a z3 If term"""
+        if not isinstance(a, LP) or not isinstance(b, LP): raise Unsupported('merge LP with non-LP')
+        diff = a.add(b.neg())
+        if diff.d or diff.extra is not None:
+            return LP(0, {}, {}, z3.If(cond, a.term(), b.term()))
+        if diff.c == 0: return b
+        key = z3.simplify(cond).sexpr()
+        r = LP(b.c, dict(b.d), dict(b.atoms), b.extra)
+        r.d[key] = r.d.get(key, 0) + diff.c
+        if r.d[key] == 0: del r.d[key]
+        r.atoms[key] = z3.simplify(cond)
+        return r
+    def __repr__(s): return f'LP({s.c} + {len(s.d)} bit terms{" + extra" if s.extra is not None else ""})'
+
+def check_min_ladders(max_limbs=None, only=None):
+    """scalar_mul_both::<true> and ::<false> on slices of 1..=N symbolic limbs: the result is (sum limb_i 2^(64 i)) * P"""
+    from .curve import items_for
+    items = items_for('min'); obs = []
+    N = max_limbs or (3 if common.tier() == 'quick' else 5)
+    it = find_item(items, r'^min_curve::element::<impl at [^>]*>::scalar_mul_both$')
+    def m_add(I, fr, fn, a):
+        x, y = D(I, a[0]), D(I, a[1])
+        return x.add(y) if isinstance(x, LP) else NotImplemented
+    def m_double(I, fr, fn, a):
+        x = D(I, a[0]); return x.add(x) if isinstance(x, LP) else NotImplemented
+    def m_select(I, fr, fn, a):
+        x, y, c = D(I, a[0]), D(I, a[1]), models.choice_bool(a[2])
+        if not isinstance(x, LP): return NotImplemented
+        if isinstance(c, bool): return y if c else x
+        return x.mir_merge(c, y, x)
+    M = models.base_models(extra_fns=[(r'^<min_curve::element::Element as core::ops::Add>::add$', m_add), (r'^min_curve::element::Element::double$', m_double),
+                                      (r'^<min_curve::element::Element as subtle::ConditionallySelectable>::conditional_select$', m_select)],
+                           extra_consts=[(r'^min_curve::element::Element::IDENTITY$', lambda I, fr, path: LP(0))])
+    for CT in (True, False):
+        for n in range(1, N + 1):
+            if only is not None and (CT, n) != only: continue
+            name = f'min:scalar_mul_both::<{str(CT).lower()}> on {n} limb(s): result = (sum limb_i * 2^(64 i)) * P'
+            limbs = [z3.BitVec(f'limb{i}', 64) for i in range(n)]
+            def body(I, h, n=n, limbs=limbs):
+                h.locals['bits'] = list(limbs)
+                return I.call_item(it, [LP(1), SliceRef(Ref(h, 'bits', []), 0, n)], generics={'CT': CT})
+            t0 = time.time()
+            try: recs = run_paths(items, M, body, merge_fns={it.name})
+            except Exception as e:
+                obs.append(Ob(name, 'inconclusive', f'{type(e).__name__}: {e} :: ' + ' <- '.join(getattr(e, 'mir_stack', [])[:3]), 0, 'mirsym/LIN')); continue
+            if len(recs) != 1 or 'result' not in recs[0]:
+                obs.append(Ob(name, 'violated' if 'panic' in recs[0] else 'inconclusive', f'{len(recs)} paths; ' + str(recs[0].get('panic')), 0, 'mirsym/LIN', None, {'kind': 'ladder', 'ct': CT, 'limbs': n})); continue
+            res = recs[0]['result']
+            # decide:  for all limb values,  res.c + sum coeff_a*[a]  ==  sum_{j,i} 2^(64j+i) * [bit i of limb j]
+            sv = z3.Solver(); sv.set('timeout', 60000 if common.tier() == 'quick' else 900000)
+            # canonicalise each branch condition to "bit i of limb j is 1" (equivalence decided by z3 on the 64-bit vector)
+            terms = []; const = res.c; nq = 0
+            for k, v in res.d.items():
+                cnd = res.atoms[k]
+                m = re.search(r'\(\(_ extract (\d+) (\d+)\) limb(\d+)\)', k)
+                canon = None
+                if m and m.group(1) == m.group(2):
+                    bit = z3.Extract(int(m.group(1)), int(m.group(1)), limbs[int(m.group(3))]) == 1
+                    q = z3.Solver(); q.add(cnd != bit); nq += 1
+                    if q.check() == z3.unsat: canon = (bit, v, 0)
+                    else:
+                        q = z3.Solver(); q.add(cnd != z3.Not(bit)); nq += 1
+                        if q.check() == z3.unsat: canon = (bit, -v, v)
+                if canon is None: terms.append(z3.If(cnd, z3.IntVal(v), z3.IntVal(0)))
+                else:
+                    terms.append(z3.If(canon[0], z3.IntVal(canon[1]), z3.IntVal(0))); const += canon[2]
+            lhs = z3.IntVal(const) + (z3.Sum(terms) if terms else z3.IntVal(0))
+            if res.extra is not None: lhs = lhs + res.extra
+            rhs = z3.Sum([z3.If(z3.Extract(i, i, limbs[j]) == 1, z3.IntVal(1 << (64 * j + i)), z3.IntVal(0)) for j in range(n) for i in range(64)])
+            sv.add(lhs != rhs)
+            r = sv.check(); dt = time.time() - t0
+            samp = {'bit_terms': len(res.d), 'const': res.c, 'example_terms': [f'{v} * [{k[:60]}]' for k, v in list(res.d.items())[:3]]}
+            if r == z3.unsat: obs.append(Ob(name, 'proved', f'{len(res.d)} bit terms with weights 2^(64j+i)', dt, 'mirsym branch-merging + z3 LIA/BV', samp))
+            elif r == z3.sat:
+                m = sv.model(); vals = [m.eval(l, model_completion=True).as_long() for l in limbs]
+                obs.append(Ob(name, 'violated', f'ladder result differs from k*P for limbs {vals}', dt, 'mirsym branch-merging + z3 LIA/BV', samp, {'kind': 'ladder', 'ct': CT, 'limbs': vals}))
+            else: obs.append(Ob(name, 'inconclusive', 'z3 unknown', dt, 'z3'))
+    return obs
+
+def check_scalar_mul_wiring(build):
+    """scalar-multiplication entry points that are not operator impls: the two public ladder wrappers of the minimal build;
+    mul_bigint (Group / AffineRepr) and vartime_multiscalar_mul of the arkworks build"""
+    from .curve import items_for
+    items = items_for(build); obs = []
+    if build == 'min':
+        rec = {}
+        def m_both(I, fr, fn, a):
+            rec['fn'] = fn; rec['args'] = a
+            return EP(z3.Int('RES'), 'min')
+        M = models.base_models(extra_fns=[(r'::scalar_mul_both::<(true|false)>$', m_both)])
+        for nm, ct in (('scalar_mul', 'true'), ('scalar_mul_vartime', 'false')):
+            it = find_item(items, rf'^min_curve::element::<impl at [^>]*>::{nm}$')
+            name = f'min:Element::{nm} = scalar_mul_both::<{ct}>(self, le_bits)'
+            def body(I, h, it=it):
+                h.locals['bits'] = [z3.BitVec('l0', 64), z3.BitVec('l1', 64)]
+                sl = SliceRef(Ref(h, 'bits', []), 0, 2); p = EP(z3.Int('P'), 'min')
+                r = I.call_item(it, [p, sl])
+                return r, p, sl
+            try:
+                recs = run_paths(items, M, body)
+                r, p, sl = recs[0]['result']
+                good = rec.get('fn', '').endswith(f'::<{ct}>') and rec['args'][0] is p and isinstance(rec['args'][1], SliceRef) and rec['args'][1].start == 0 and rec['args'][1].len == 2 and isinstance(r, EP) and str(r.t) == 'RES'
+                obs.append(Ob(name, 'proved' if good else 'violated', f"calls {rec.get('fn')}", 0, 'mirsym/EUF', None, None if good else {'kind': 'ladder-wrapper', 'fn': nm}))
+            except Exception as e:
+                obs.append(Ob(name, 'inconclusive', f'{type(e).__name__}: {e}', 0, 'mirsym/EUF'))
+        return obs
+    M = g_models(build)
+    def run1(name, body, want_fn, extra_path=None):
+        try: recs = run_paths(items, M, body)
+        except Exception as e:
+            obs.append(Ob(name, 'inconclusive', f'{type(e).__name__}: {e} :: ' + ' <- '.join(getattr(e, 'mir_stack', [])[:3]), 0, 'mirsym/G')); return
+        for r in recs:
+            if 'panic' in r: obs.append(Ob(name, 'violated', 'panics: ' + r['panic'], 0, 'mirsym/G', None, {'kind': 'panic'})); continue
+            got = point_term(build, r['result']); want = want_fn()
+            ans, model, dt, smt = decide_int_eq(got, want, path=r['path'])
+            samp = {'got': str(got), 'want': str(want)}
+            if ans == 'unsat': obs.append(Ob(name, 'proved', f'result = {want}', dt, 'z3 LIA+EUF (free abelian group)', samp))
+            elif ans == 'sat': obs.append(Ob(name, 'violated', f'result is {got}, expected {want}', dt, 'z3 LIA+EUF (free abelian group)', samp, {'kind': 'smul-wiring', 'z3_model': model}))
+            else: obs.append(Ob(name, 'inconclusive', 'z3 unknown', dt, 'z3'))
+    # mul_bigint with integers of 1..=6 limbs (longer than the modulus): the whole integer reaches the inner scalar multiplication
+    for pat, ty in ((r'^ark_curve::element::<impl at src/ark_curve/element.rs:\d+:1: \d+:\d+>::mul_bigint$', None),):
+        for it in [v for k, v in items.items() if re.search(pat, k)]:
+            pty = it.params[0][1]
+            for n in (1, 4, 5, 6):
+                limbs = [(0x1111111111111111 * (i + 1)) & (2 ** 64 - 1) for i in range(n)]
+                kval = sum(x << (64 * i) for i, x in enumerate(limbs))
+                def body(I, h, it=it, limbs=limbs, pty=pty):
+                    a0 = mk_value('ark', pty, 'L', h)[0]
+                    h.locals['lim'] = list(limbs)
+                    return I.call_item(it, [a0, SliceRef(Ref(h, 'lim', []), 0, len(limbs))])
+                run1(f'ark:`{it.impl_header()}`::mul_bigint with a {n}-limb integer', body, lambda kval=kval: z3.IntVal(kval) * z3.Int('L'))
+    # vartime_multiscalar_mul over 0..=3 pairs, and unequal lengths (stops at the shorter)
+    it = find_item(items, r'^ark_curve::element::projective::<impl at [^>]*>::vartime_multiscalar_mul$')
+    for ns, npnt in ((0, 0), (1, 1), (2, 2), (3, 3), (3, 2), (2, 3)) + (((5, 5),) if common.tier() == 'thorough' else ()):
+        def body(I, h, ns=ns, npnt=npnt):
+            ks = []; ps = []
+            for i in range(ns): h.locals[f'k{i}'] = FE.sym('Fr', f'k{i}'); ks.append(Ref(h, f'k{i}', []))
+            for i in range(npnt): v, _ = mk_value('ark', '&' + ELEM_TY['ark'], f'P{i}', h); ps.append(v)
+            return I.call_item(it, [IterObj(ks), IterObj(ps)])
+        n = min(ns, npnt)
+        run1(f'ark:vartime_multiscalar_mul with {ns} scalars and {npnt} points = sum of the first {n} products', body,
+             lambda n=n: z3.Sum([SMUL(z3.Int(f'P{i}'), z3.Int(f'k{i}')) for i in range(n)]) if n else z3.IntVal(0))
+    return obs
